@@ -19,8 +19,10 @@ FUNCTIONS = [
 ]
 BOUNDS = ("(1) Protocol: the real startprint/_sendnext/_send/_listen code is driven single-threaded "
           "against a Marlin-style firmware model (line numbers, XOR checksum, 'Resend: n' + 'ok'). "
-          "Cell grid: 3 concrete jobs (with comment-only and trailing-comment lines) x number K of "
-          "transmissions that may be corrupted (quick 5, thorough 8). Solver over: which of the "
+          "Cell grid: 5 concrete jobs (comment-only and trailing-comment lines, a layered job with "
+          "z-hops and an end script, a 14-line job) x number K of transmissions that may be "
+          "corrupted (quick 5, thorough 8; for the long job a window of 4 starting at transmission "
+          "8-11, i.e. two-digit line numbers). Solver over: which of the "
           "first K job transmissions are corrupted (2^K patterns, including repeated corruption of "
           "a resent line). Checked: every frame is N<k> <cmd>*<xor>, numbering restarts at 0 after "
           "M110 N-1, a resend request is followed by transmission of exactly the requested line, "
@@ -41,6 +43,11 @@ JOBS = {
     "plain": ["G1 X1", "G1 X2", "M105", "G1 X3"],
     "comments": ["; header", "G1 X1 ; first", "", "G28", "(note)", "M400"],
     "short": ["G0 Z5", "M3 S100"],
+    # layer structure as the job container sees it: Z changes, a z-hop back to the same height,
+    # a non-extruding end script after the last layer
+    "layers": ["G28", "G1 Z0.2 F600", "G1 X10 Y0 E1", "G1 Z0.6", "G1 X10 Y10", "G1 Z0.2",
+               "G1 X0 Y10 E2", "G1 Z0.4", "G1 X0 Y0 E3", "G1 Z5", "G1 X0 Y0", "M84"],
+    "long": [f"G1 X{i}" for i in range(14)],
 }
 
 
@@ -121,7 +128,7 @@ class Firmware:
         return ["ok"]
 
 
-def _make_protocol(job_name, K):
+def _make_protocol(job_name, K, first=0):
     import importlib
     pc_mod = importlib.import_module("gscrib.printrun.printcore")
     gcoder = importlib.import_module("gscrib.printrun.gcoder")
@@ -166,8 +173,8 @@ def _make_protocol(job_name, K):
                 corrupted = False
                 if not is_reset:
                     tx += 1
-                    if tx < K:
-                        corrupted = flags[tx]
+                    if first <= tx < first + K:
+                        corrupted = flags[tx - first]
                     if pending_resend is not None:
                         num = frame[1:].split(" ", 1)[0]
                         if num != str(pending_resend):
@@ -197,9 +204,9 @@ def _make_protocol(job_name, K):
             return V("firmware-did-not-get-the-job-once-in-order",
                      lambda: f"accepted {fw.accepted!r}, job is {want!r}; wire={dev.written!r} "
                              f"flags={flags!r}")
-        first = dev.written[0].decode("ascii")
-        if not first.startswith("N-1 M110 N-1*"):
-            return V("no-line-number-reset", lambda: f"first frame {first!r}")
+        frame0 = dev.written[0].decode("ascii")
+        if not frame0.startswith("N-1 M110 N-1*"):
+            return V("no-line-number-reset", lambda: f"first frame {frame0!r}")
         reached("finished")
         return None
 
@@ -376,9 +383,16 @@ def cells(tier):
     quick = tier == "quick"
     for job in JOBS:
         for K in ((5,) if quick else (4, 8)):
+            if job == "long":
+                continue
             out.append(Cell(f"protocol|job={job}|K={K}", _make_protocol(job, K),
                             budget_s=300 if quick else 1800, must_reach=("finished",),
                             entry="printcore._sendnext/_listen"))
+    # corruption late in a longer job: resend requests for two-digit line numbers
+    for first in ((9,) if quick else (8, 10, 11)):
+        out.append(Cell(f"protocol|job=long|K=4|from-transmission={first}", _make_protocol("long", 4, first),
+                        budget_s=300 if quick else 1800, must_reach=("finished",),
+                        entry="printcore._sendnext/_listen"))
     for length in ((1, 2) if quick else (1, 2, 3)):
         for lineno in ((0, 7, 42) if quick else (-1, 0, 7, 42, 999, 100000)):
             out.append(Cell(f"framing|len={length}|n={lineno}", _make_framing(length, lineno),
